@@ -321,7 +321,7 @@ RULES = [
 ]
 
 MUTANTS = [
-    Mutant("recycle-merges-out-and-vol", "step.py", in_function("Step.can_recycle", lambda s: s.replace("        old_out_paths = sorted(r.path for r in self.out_paths(dynamic=False))\n        if old_out_paths != sorted(out_paths):\n            return False\n        old_vol_paths = sorted(r.path for r in self.vol_paths(dynamic=False))\n        return old_vol_paths == sorted(vol_paths)\n", "        old_paths = sorted(r.path for r in self.out_paths(dynamic=False)) + sorted(r.path for r in self.vol_paths(dynamic=False))\n        return sorted(old_paths) == sorted([*out_paths, *vol_paths])\n") if "old_vol_paths == sorted(vol_paths)" in s else None), ("R-C06-7",)),
+    Mutant("recycle-merges-out-and-vol", "step.py", in_function("Step.can_recycle", lambda s: s.replace("        old_out_paths = sorted(r.path for r in self.out_paths(dynamic=False) if r.path in own_paths)\n        if old_out_paths != sorted(out_paths):\n            return False\n        old_vol_paths = sorted(r.path for r in self.vol_paths(dynamic=False) if r.path in own_paths)\n        return old_vol_paths == sorted(vol_paths)\n", "        old_paths = sorted(r.path for r in self.out_paths(dynamic=False) if r.path in own_paths) + sorted(r.path for r in self.vol_paths(dynamic=False) if r.path in own_paths)\n        return sorted(old_paths) == sorted([*out_paths, *vol_paths])\n") if "old_vol_paths == sorted(vol_paths)" in s else None), ("R-C06-7",)),
     Mutant("rmtree-prune", "finalize.py", in_function("_prune_empty_dirs", replace_once("_try_remove(path.rmdir)", "_try_remove(path.rmtree_p)")), ("R-C06-1", "R-C06-3")),
     Mutant("delete-in-workflow", "workflow.py", in_function("Workflow.mark_dir_to_be_deleted", replace_once("            self.to_be_deleted[path + os.sep] = None\n", "            self.to_be_deleted[path + os.sep] = None\n            Path(path).rmdir_p()\n")), ("R-C06-1",)),
     Mutant("queue-confirmed", "file.py", in_function("File.before_delete", replace_once("elif state in (FileState.BUILT, FileState.OUTDATED):", "elif state in (FileState.BUILT, FileState.OUTDATED, FileState.CONFIRMED):")), ("R-C06-2",)),
